@@ -20,6 +20,11 @@ type C04Case struct {
 	X1   []float64 `json:"x1"`
 	X2   []float64 `json:"x2,omitempty"`
 	Mu0  float64   `json:"mu0,omitempty"`
+	// Conf, if non-zero, restricts a meanci case to this single confidence level.
+	Conf float64 `json:"conf,omitempty"`
+	// Sizes: for Test "meanci-sweep", the sequence of sample sizes visited within
+	// one case (the history is part of the case, so a replay reproduces it).
+	Sizes []int `json:"sizes,omitempty"`
 }
 
 func init() {
@@ -29,7 +34,7 @@ func init() {
 		Run:   c04Run,
 		Kinds: []core.Kind{core.ReplayOf("ttest", c04Check)},
 		Rule: "every pair of multisets of sizes {2,3,4}^2 over {-3,-1,0,0.5,2,7} for the pooled and Welch tests, every pair of equal-length sequences for the paired test, every multiset n<=5 x mu0 in {-1,0,0.25,3} for the one-sample test, all three alternatives; " +
-			"a complete structured family n in {2,3,10,39,40} x 4 patterns x offsets {0,1e3,1e6} x 3 scales; error cases for every combination of sizes 0/1/2 and constant data; MeanCI on every multiset n<=5 and the family x 11 confidence levels. " +
+			"a complete structured family n in {2,3,10,39,40} x 4 patterns x offsets {0,1e3,1e6} x 3 scales; MeanCI and the one-sample test on every size n=2..40 in three orders of sizes within one process; error cases for every combination of sizes 0/1/2 and constant data; MeanCI on every multiset n<=5 and the family x 11 confidence levels. " +
 			"Oracle: T^2 and DoF as exact rationals, P from the closed-form t CDF (integer DoF) or gonum (Welch). Non-trivial: no error expected.",
 		Technique: "bounded-exhaustive multiset-pair enumeration of the real t-tests against exact rational statistics and an independent t distribution",
 		Assumptions: []string{
@@ -218,9 +223,30 @@ func c04WantP(t, dof float64, alt stats.LocationHypothesis) float64 {
 	return 2 * c04TCDF(-math.Abs(t), dof)
 }
 
+func c04SweepSample(n, pat int) []float64 {
+	x := make([]float64, n)
+	for i := range x {
+		switch pat {
+		case 0:
+			x[i] = float64((i*7)%n) - float64(n)/3
+		case 1:
+			x[i] = 100 + float64(i%5)/4 + float64(i*i%7)
+		}
+	}
+	return x
+}
+
 func c04Check(c *C04Case, r *core.Rec) {
 	if c.Test == "meanci" {
 		c04MeanCI(c, r)
+		return
+	}
+	if c.Test == "meanci-sweep" {
+		// one history: MeanCI at one confidence level over a sequence of sample sizes
+		for _, n := range c.Sizes {
+			sub := &C04Case{Test: "meanci", X1: c04SweepSample(n, 1), Conf: c.Conf}
+			c04MeanCI(sub, r)
+		}
 		return
 	}
 	e := c04Oracle(c)
@@ -349,7 +375,11 @@ func c04MeanCI(c *C04Case, r *core.Rec) {
 	n := len(xs)
 	m := ref.ExactMoments(xs)
 	r.NT()
-	for _, conf := range c04Confs {
+	confs := c04Confs
+	if c.Conf != 0 {
+		confs = []float64{c.Conf}
+	}
+	for _, conf := range confs {
 		mean, lo, hi := stats.MeanCI(xs, conf)
 		r.Trans(1)
 		tag := fmt.Sprintf("MeanCI(%v, %v)=(%v,%v,%v)", trunc(c.X1), conf, mean, lo, hi)
@@ -541,6 +571,40 @@ func c04Run(c *core.Ctx) {
 			run("one", a, nil, 1.5)
 			run("meanci", a, nil, 0)
 		}
+	}
+	// MeanCI (and the one-sample test) for EVERY size 2..40 inside one process, in
+	// ascending, descending and a mixed order of sizes at the same confidence
+	// levels: "samples of 2..40 values" is the quantifier, and a result must not
+	// depend on which sizes were asked for before (C20's history clause seen from here).
+	if c.First() {
+		mk := c04SweepSample
+		var order []int
+		for n := 2; n <= 40; n++ {
+			order = append(order, n)
+		}
+		for n := 40; n >= 2; n-- {
+			order = append(order, n)
+		}
+		for k := 0; k < 39; k++ {
+			order = append(order, 2+(k*17)%39)
+		}
+		for _, n := range order {
+			for pat := 0; pat < 2; pat++ {
+				x := mk(n, pat)
+				run("meanci", x, nil, 0)
+				run("one", x, nil, x[0])
+			}
+		}
+		// the same sweeps with the confidence level fixed across sizes, each as ONE
+		// case that carries its whole history
+		for _, conf := range []float64{0.5, 0.9, 0.95, 0.99} {
+			for _, ord := range [][]int{order[:39], order[39:78], order[78:], order} {
+				*cs = C04Case{Test: "meanci-sweep", Sizes: ord, Conf: conf}
+				r.Case("ttest", cs)
+				r.Try(func() { c04Check(cs, r) })
+			}
+		}
+		cs.Conf = 0
 	}
 	// structured family to n=40
 	fam := c04Family()
